@@ -241,17 +241,110 @@ def translate_binop(repo):
     ]
 
 
+# ---------------------------------------------------------------------------
+# region 3: the order of the steps in the MRO loop of attributes._get_attribute_from_mro, and
+# the condition under which name_check_visitor._get_attribute_fallback accepts a missing attribute
+
+
+def translate_attr(repo):
+    fname = "attributes.py"
+    tree = ast.parse((Path(repo) / "pyanalyze" / fname).read_text())
+    fn = _find_func(tree, "_get_attribute_from_mro")
+    loop = None
+    for n in ast.walk(fn):
+        if isinstance(n, ast.For) and ast.unparse(n.iter) == "mro":
+            loop = n
+    if loop is None:
+        _fail(fn, "`for base_cls in mro` not found", fname)
+    steps = []
+    for st in loop.body:
+        src = ast.unparse(st)
+        if isinstance(st, ast.If) and ast.unparse(st.test) == "ctx.skip_mro and base_cls is not typ":
+            continue
+        if isinstance(st, ast.Assign) and ast.unparse(st.targets[0]) == "typeshed_type" and "get_attribute_from_typeshed" in src:
+            continue
+        if isinstance(st, ast.If) and ast.unparse(st.test) == "typeshed_type is not UNINITIALIZED_VALUE":
+            if "isinstance(typeshed_type, CallableValue)" in src:
+                steps.append("SStubNonCallable")
+            elif len(st.body) == 1 and isinstance(st.body[0], ast.Return):
+                steps.append("SStubCallable")
+            else:
+                _fail(st, "unrecognised use of the stub attribute", fname)
+            continue
+        if isinstance(st, ast.Try):
+            body = ast.unparse(st.body[0]) if st.body else ""
+            if body == "base_dict = base_cls.__dict__":
+                continue
+            if "type_from_annotations" in ast.unparse(ast.Module(body=st.orelse, type_ignores=[])):
+                steps.append("SAnnotations")
+                continue
+            if body == "base_dict[ctx.attr]":
+                els = ast.unparse(ast.Module(body=st.orelse, type_ignores=[]))
+                if "KnownValue(getattr(typ, ctx.attr))" not in els or "AnyValue(AnySource.inference)" not in els:
+                    _fail(st, "the base-dict hit no longer performs getattr on the object", fname)
+                steps.append("SBaseDict")
+                continue
+        _fail(st, "unknown statement in the MRO loop", fname)
+    if sorted(steps) != sorted(["SStubNonCallable", "SAnnotations", "SBaseDict", "SStubCallable"]):
+        _fail(loop, f"expected the four known steps, found {steps}", fname)
+    # the fallback after the loop: getattr on the object itself
+    tail = ast.unparse(ast.Module(body=fn.body[-3:], type_ignores=[]))
+    if "KnownValue(getattr(typ, ctx.attr))" not in tail or "return (UNINITIALIZED_VALUE, object, False)" not in tail:
+        _fail(fn, "the final getattr fallback changed", fname)
+    out = [
+        "(* attributes.py _get_attribute_from_mro: steps of `for base_cls in mro`, in source order *)",
+        "Definition mro_step_order : list step := [" + "; ".join(steps) + "].",
+    ]
+    fname = "name_check_visitor.py"
+    tree = ast.parse((Path(repo) / "pyanalyze" / fname).read_text())
+    fb = _find_func(tree, "_get_attribute_fallback")
+    cond = None
+    for n in ast.walk(fb):
+        if isinstance(n, ast.If) and "_static_hasattr(root_value.val, '__getattr__')" in ast.unparse(n.test):
+            if [ast.unparse(x) for x in n.body] != ["return AnyValue(AnySource.inference)"]:
+                _fail(n, "the accepted-missing-attribute branch no longer returns Any", fname)
+            cond = n.test
+    if cond is None:
+        _fail(fb, "the __getattr__ test of _get_attribute_fallback not found", fname)
+    atoms = {
+        "_has_only_known_attributes(self.checker.ts_finder, root_value.val)": "only_known",
+        "_static_hasattr(root_value.val, '__getattr__')": "has_getattr",
+        "self._should_ignore_val(node)": "ignored_name",
+    }
+
+    def b(e):
+        src = ast.unparse(e)
+        if src in atoms:
+            return atoms[src]
+        if isinstance(e, ast.UnaryOp) and isinstance(e.op, ast.Not):
+            return f"(negb {b(e.operand)})"
+        if isinstance(e, ast.BoolOp):
+            op = " && " if isinstance(e.op, ast.And) else " || "
+            return "(" + op.join(b(v) for v in e.values) + ")"
+        _fail(e, "unsupported condition in _get_attribute_fallback", fname)
+
+    out += [
+        "(* name_check_visitor.py _get_attribute_fallback (KnownValue): a missing attribute is accepted when *)",
+        f"Definition fallback_ignores (only_known has_getattr ignored_name : bool) : bool := {b(cond)}.",
+    ]
+    return out
+
+
 def translate(repo):
     lines = [
         "(* GENERATED by harness/translate/ops.py from pyanalyze/implementation.py and",
         "   pyanalyze/name_check_visitor.py -- do not edit, not committed. *)",
-        "From Coq Require Import ZArith Bool.",
+        "From Coq Require Import ZArith Bool List.",
+        "Import ListNotations.",
+        "Require Import PV.Ops.AttrBase.",
         "Local Open Scope Z_scope.",
         "",
     ]
     lines += translate_seq(repo)
     lines.append("")
     lines += translate_binop(repo)
+    lines.append("")
+    lines += translate_attr(repo)
     return "\n".join(lines) + "\n"
 
 
